@@ -40,6 +40,16 @@ Definition tworld_hyp (fe : fenv) (T : tworld) (x : string) : Prop :=
                let '(w', got, e) := t_readfull T w n in GOk [w'; vbytes got; VN e]) /\
   (forall w, fe (x ++ ".Close") [w] = GOk [fst (t_close T w); VN (snd (t_close T w))]).
 
+(* the numbers of a list of values *)
+Fixpoint unvn (l : list val) : list N :=
+  match l with
+  | VN n :: t => n :: unvn t
+  | _ :: t => 0 :: unvn t
+  | [] => []
+  end.
+Lemma unvn_map l : unvn (map VN l) = l.
+Proof. induction l as [|x t IH]; cbn [map unvn]; [reflexivity|rewrite IH; reflexivity]. Qed.
+
 (* a function environment made of the world functions: the hypothesis is satisfiable *)
 Definition world_base (T : tworld) : fenv := fun name args =>
   let is s := String.eqb name s in
@@ -51,7 +61,7 @@ Definition world_base (T : tworld) : fenv := fun name args =>
     match args with [w; VN t] => GOk [fst (t_setdl T w t); VN (snd (t_setdl T w t))] | _ => Stuck end
   else if orb (is "socket.Write") (orb (is "link.Write") (is "rtuLink.Write")) then
     match args with
-    | [w; VL l] => let '(w', n, e) := t_write T w (unbytes l) in GOk [w'; VN n; VN e]
+    | [w; VL l] => let '(w', n, e) := t_write T w (unvn l) in GOk [w'; VN n; VN e]
     | _ => Stuck
     end
   else if orb (is "socket.ReadFull") (orb (is "link.ReadFull") (is "rtuLink.ReadFull")) then
@@ -62,6 +72,13 @@ Definition world_base (T : tworld) : fenv := fun name args =>
   else if orb (is "socket.Close") (orb (is "link.Close") (is "rtuLink.Close")) then
     match args with [w] => GOk [fst (t_close T w); VN (snd (t_close T w))] | _ => Stuck end
   else Stuck.
+
+Lemma world_base_hyp T x : x = "socket" \/ x = "link" \/ x = "rtuLink" -> tworld_hyp (world_base T) T x.
+Proof.
+  intros [H|[H|H]]; subst x; unfold tworld_hyp, world_base; cbn [append String.eqb Ascii.eqb Bool.eqb orb];
+    repeat split; intros; try reflexivity;
+    unfold vbytes; rewrite unvn_map; reflexivity.
+Qed.
 
 (* ---------------------------------------------------------------- expected results *)
 
